@@ -61,13 +61,15 @@ def copy_tree(src, dst):
             shutil.copy2(s, d)
 
 
-def run_rules_on(root, rule_modules=None):
+def run_rules_on(root, rule_modules=None, floor_scale=None):
     from mirlib import extract
     from program import Program
     from engine import Ctx
     import catalog
     prog = Program(*extract(root))
     ctx = Ctx(prog)
+    if floor_scale is not None:
+        ctx.floor_scale = floor_scale
     for name in catalog.RULE_MODULES:
         importlib.import_module('rules.' + name).run(ctx)
     return ctx
@@ -116,9 +118,16 @@ def good_fixture(_):
     try:
         root = os.path.join(tmp, 'fx')
         copy_tree(os.path.join(VERIF, 'fixtures', 'base'), root)
-        ctx = run_rules_on(root)
+        ctx = run_rules_on(root, floor_scale=1.0)       # the reference is held to the full floors
         v = [i.key for i in ctx.instances if i.verdict == 'violation']
-        return {'status': 'silent' if not v else 'NOISY', 'violations': v[:5], 'instances': len(ctx.instances)}
+        import catalog
+        short = []
+        for pid, spec in sorted(catalog.PROPS.items()):
+            for rule, floor in spec.get('floors', {}).items():
+                n = len([i for i in ctx.instances if i.rule == rule and pid in i.props and i.verdict != 'info'])
+                if n < floor:
+                    short.append('%s/%s: %d < %d' % (pid, rule, n, floor))
+        return {'status': 'silent' if not v and not short else 'NOISY', 'violations': v[:5] + short[:5], 'instances': len(ctx.instances)}
     finally:
         shutil.rmtree(tmp, ignore_errors=True)
 
